@@ -146,6 +146,7 @@ fn base_case(prop: &str, elem: ElemKind, rng: &mut Rng) -> Case {
         threads: Vec::new(),
         twin: false,
         budget: 1 << 40,
+        free_run: false,
     }
 }
 
